@@ -696,7 +696,7 @@ func (e *exec) observe() observation {
 // tags
 
 type features struct {
-	tags                                                        map[string]bool
+	tags                                                    map[string]bool
 	resProm, resThen, retProm, retThen, comb, multiRun, dbl bool
 }
 
@@ -917,7 +917,7 @@ func (g *gen) script() *Script {
 	}
 	intrW := 0
 	if g.wantIntr {
-		intrW = 14
+		intrW = 26
 	}
 	var v Val
 	switch g.r.Pick(30, 15, 15, 20, 10, 6, intrW) {
@@ -1056,6 +1056,19 @@ func genCase(r *vh.Rng) Case {
 			v = g.resVal(pr)
 		}
 		c.Ops = append(c.Ops, Op{O: []string{"res", "rej"}[r.Pick(60, 40)], Pr: pr, V: &v})
+	}
+	if g.wantIntr && !hasGoOrIntr(Case{Ops: c.Ops}) {
+		var ss []*Script
+		for _, op := range c.Ops {
+			for _, sc := range []*Script{op.OnF, op.OnR} {
+				if sc != nil {
+					ss = append(ss, sc)
+				}
+			}
+		}
+		if len(ss) > 0 {
+			ss[r.Intn(len(ss))].Ret = Ret{K: "intr"}
+		}
 	}
 	// runs
 	cut := make([]bool, len(c.Ops))
